@@ -51,6 +51,13 @@ def world(ctx, eng):
         return [(tuple(h[f] for f in fields[o.cls]), s)]
     eng.genv["astuple"] = Fn(astuple)
 
+    # read-only properties of the padding classes: their real bodies, evaluated on the object
+    try:
+        size_prop = inline(ctx.fn(PAD, "AlignedPadding.size"), eng)
+        eng.attrs[("AlignedPadding", "size")] = lambda e, s, v: e.call(size_prop, (v,), {}, s)
+    except Exception:  # noqa: BLE001  (no such property any more: code that reads it is then outside the model)
+        pass
+
     def locals_(e, s, args, kw):
         return [(Namespace("locals", dict(s.frames[-1])), s)]
     eng.genv["locals"] = Fn(locals_)
